@@ -118,6 +118,14 @@ def render(seq, mapping, rot=0, numeric=True):
     return _t[key](seq=seq, cf=odd_order)
 
 
+class RowRec:
+    def __init__(self, d):
+        self._d = d
+
+    def __getitem__(self, k):
+        return self._d[k]
+
+
 Rec2 = collections.namedtuple('Rec2', 'x z')
 Rec3 = collections.namedtuple('Rec3', 'x z w')
 
@@ -152,7 +160,11 @@ def observe(item):
                 else:
                     v = NAMES[x['v']]
                 if mapping:
-                    seq.append({'x': v, 'z': v})
+                    # rows of a mapping loop: dicts, or records that can only be subscripted (no .get, no keys())
+                    # (not where the tag is asked to sort: sorting a mapping loop reads the key with .get)
+                    rot_ = i * 7 + ri * 3 + 1
+                    plain_loop = rot_ % 3 == 2 or rot_ % 4 in (0, 2)
+                    seq.append(RowRec({'x': v, 'z': v}) if ((i + ri) % 3 == 1 and plain_loop) else {'x': v, 'z': v})
                 elif (i + ri) % 4 == 1:
                     seq.append(Rec2(v, v))       # a two-field record: a tuple subclass, not a (key, value) pair
                 elif (i + ri) % 4 == 3:
